@@ -245,6 +245,10 @@ func (ex *Exec) addressText(p value) value {
 		ex.assume(fromTerm(tc.Or(isDigit, isHex)))
 		out = append(out, v)
 		mine = append(mine, v)
+		if ex.addrOwner == nil {
+			ex.addrOwner = map[*Term]int{}
+		}
+		ex.addrOwner[v] = ex.addrCtr
 	}
 	ex.addrCtr++
 	for _, other := range ex.addrVars {
